@@ -305,10 +305,13 @@ func (vm *VM) FindElementWithModule(name *IDName) (Element, *Module, error) {
 	return elem, vm.moduleGraph.GetModuleByID(extModuleID), nil
 }
 
-// DeclaredInCurrentBlock - whether the name is a declaration of the block being executed
-func (vm *VM) DeclaredInCurrentBlock(name *IDName) bool {
+// CurrentBlockID - identity of the block being executed in the current module
+func (vm *VM) CurrentBlockID() int {
 	scope := vm.getCurrentScope()
-	return scope != nil && scope.DeclaredInCurrentBlock(name.GetLiteral())
+	if scope == nil {
+		return 0
+	}
+	return scope.CurrentBlockID()
 }
 
 // DeclareElement
